@@ -79,17 +79,8 @@ fn mk_node(medium: Medium, last: u8, seed: u64) -> Node {
         }
         a.push(IpCidr::new(IpAddress::Ipv6(ll_addr(medium, last)), 64)).unwrap();
     });
-    let storage: &'static mut [SocketStorage<'static>] = Box::leak(Box::new([
-        SocketStorage::EMPTY,
-        SocketStorage::EMPTY,
-        SocketStorage::EMPTY,
-        SocketStorage::EMPTY,
-        SocketStorage::EMPTY,
-        SocketStorage::EMPTY,
-        SocketStorage::EMPTY,
-        SocketStorage::EMPTY,
-    ]));
-    let mut sockets = SocketSet::new(&mut storage[..]);
+    let storage: Vec<SocketStorage<'static>> = Vec::new();
+    let mut sockets = SocketSet::new(storage);
     let mk_tcp = || tcp::Socket::new(tcp::SocketBuffer::new(vec![0; 2048]), tcp::SocketBuffer::new(vec![0; 2048]));
     let mut l = mk_tcp();
     l.listen(80).unwrap();
@@ -114,9 +105,9 @@ fn mk_node(medium: Medium, last: u8, seed: u64) -> Node {
         raw::PacketBuffer::new(vec![raw::PacketMetadata::EMPTY; 4], vec![0; 2048]),
     );
     let raw = sockets.add(rw);
-    let q: &'static mut [Option<dns::DnsQuery>] = Box::leak(Box::new([None, None]));
+    let q: Vec<Option<dns::DnsQuery>> = vec![None, None];
     let server = if medium == Medium::Ieee802154 { IpAddress::Ipv6(ll_addr(medium, 2)) } else { IpAddress::v4(10, 0, 0, 2) };
-    let dns = sockets.add(dns::Socket::new(&[server], &mut q[..]));
+    let dns = sockets.add(dns::Socket::new(&[server], q));
     let dhcp = if medium == Medium::Ethernet { Some(sockets.add(dhcpv4::Socket::new())) } else { None };
     Node { medium, iface, dev, sockets, tcp_listen, tcp_client, udp, icmp, raw, dns, dhcp }
 }
